@@ -44,6 +44,9 @@ def run(body, init, node_events, edge_events, delta, unwind=False, entry=0, max_
         rejected = False
         for ev in node_events(bb):
             nxt = delta(cur, ev)
+            if nxt is None:
+                rejected = True
+                break
             if isinstance(nxt, Reject):
                 res.rejects.append((bb, ev, cur, nxt.reason, _path(parent, (bb, st))))
                 rejected = True
@@ -60,6 +63,9 @@ def run(body, init, node_events, edge_events, delta, unwind=False, entry=0, max_
             bad = False
             for ev in edge_events(bb, s):
                 nxt = delta(c2, ev)
+                if nxt is None:
+                    bad = True
+                    break
                 if isinstance(nxt, Reject):
                     res.rejects.append((bb, ev, c2, nxt.reason, _path(parent, (bb, st)) + [s]))
                     bad = True
